@@ -66,7 +66,8 @@ def verb_sets(quick):
     """(dyadic verbs, monadic verbs, predicates, reduced sets for chains in the quick tier)."""
     d_ops = ['+', '-', '*', '%', ':%', '!', '^', '&', '|', '<', '>', '=', '~', ',']
     d_lam = ['{x+y}', '{x-y}', '{x*y}', '{x%y}', '{x^y}', '{x&y}', '{x|y}', '{x<y}', '{x>y}', '{x=y}', '{x~y}', '{x,y}',
-             '{y-x}', '{(2*x)+y}', '{x,,y}', '{x+y+z}(1;;)']
+             '{y-x}', '{(2*x)+y}', '{x,,y}', '{x+y+z}(1;;)',
+             '{(#x)-#y}']        # tells a character (its code) from a one-character string (its length)
     d_py = ['padd', 'psub', 'ptwo']
     m_ops = ['-', '|', '#', '*', ',', '_', '~', '%', '!', '?', '<', '>', '=', '^', '+', '&', '@', '$', ':#']
     m_lam = ['{x}', '{-x}', '{x+1}', '{x*2}', '{_x%2}', '{1,x}', '{x,x}', '{x@0}', '{x@1}', '{(x@0)*(x@1)}', '{(x+2%x)%2}',
